@@ -96,27 +96,43 @@ def check_text(text, optname, case, tmpdir):
             'renderers': {'sql_renderer': MarkSQL, 'dbml_renderer': MarkDBML},
             'all': {'allow_properties': True, 'sql_renderer': MarkSQL, 'dbml_renderer': MarkDBML}}[optname]
     ref = None
-    # '' through the constructor is documented as "no source": PyDBML('') still parses, PyDBML(None) does not
-    for bom in (False, True):
-        t = (BOM + text) if bom else text
-        for name, thunk in routes(t, tmpdir, opts, f'{int(bom)}').items():
-            obs, db = observe(thunk)
-            label = f'{name}{" +BOM" if bom else ""} [{optname}]'
-            if ref is None:
-                ref = (label, obs)
-            elif obs != ref[1]:
-                what = 'outcome'
-                if obs[0] == 'db' and ref[1][0] == 'db':
-                    what = ['', 'content', '.dbml', '.sql', 'allow_properties'][[i for i in range(1, 5) if obs[i] != ref[1][i]][0]]
-                viols.append(Viol(f'c12:differs:{name}:{"bom" if bom else "nobom"}:{what}',
-                                  f'{label} differs from {ref[0]} in {what}: {str(obs)[:200]} vs {str(ref[1])[:200]}', case, size=len(text)))
-            if db is not None:
-                if 'sql_renderer' in opts and (db.sql_renderer is not MarkSQL or db.dbml_renderer is not MarkDBML):
-                    viols.append(Viol(f'c12:renderer-option:{name}', f'{label}: renderer classes were not installed', case, size=len(text)))
-                if 'sql_renderer' in opts and obs[0] == 'db' and (obs[2] != 'MARK-DBML' or obs[3] != 'MARK-SQL'):
-                    viols.append(Viol(f'c12:renderer-option:{name}', f'{label}: database renderings do not come from the configured classes', case, size=len(text)))
-                if bool(db.allow_properties) != bool(opts.get('allow_properties')):
-                    viols.append(Viol(f'c12:props-option:{name}', f'{label}: allow_properties={db.allow_properties}', case, size=len(text)))
+    kept = []
+
+    def one_pass(rnd):
+        nonlocal ref
+        for bom in (False, True):
+            t = (BOM + text) if bom else text
+            for name, thunk in routes(t, tmpdir, opts, f'{int(bom)}').items():
+                obs, db = observe(thunk)
+                label = f'{name}{" +BOM" if bom else ""} [{optname}]' + (' (second request, after the first results were edited)' if rnd == 2 else '')
+                if ref is None:
+                    ref = (label, obs)
+                elif obs != ref[1]:
+                    what = 'outcome'
+                    if obs[0] == 'db' and ref[1][0] == 'db':
+                        what = ['', 'content', '.dbml', '.sql', 'allow_properties'][[i for i in range(1, 5) if obs[i] != ref[1][i]][0]]
+                    viols.append(Viol(f'c12:differs:{name}:{"bom" if bom else "nobom"}:{what}' + (':second-request' if rnd == 2 else ''),
+                                      f'{label} differs from {ref[0]} in {what}: {str(obs)[:200]} vs {str(ref[1])[:200]}', case, size=len(text)))
+                if db is not None:
+                    if rnd == 1:
+                        kept.append(db)
+                    if 'sql_renderer' in opts and (db.sql_renderer is not MarkSQL or db.dbml_renderer is not MarkDBML):
+                        viols.append(Viol(f'c12:renderer-option:{name}', f'{label}: renderer classes were not installed', case, size=len(text)))
+                    if 'sql_renderer' in opts and obs[0] == 'db' and (obs[2] != 'MARK-DBML' or obs[3] != 'MARK-SQL'):
+                        viols.append(Viol(f'c12:renderer-option:{name}', f'{label}: database renderings do not come from the configured classes', case, size=len(text)))
+                    if bool(db.allow_properties) != bool(opts.get('allow_properties')):
+                        viols.append(Viol(f'c12:props-option:{name}', f'{label}: allow_properties={db.allow_properties}', case, size=len(text)))
+
+    one_pass(1)
+    if kept and not viols:
+        # the caller edits what it got; asking again for the same text must give the same database on every route
+        from .c11 import edit
+        for k, db in enumerate(kept):
+            try:
+                edit(db, k)
+            except Exception:  # noqa
+                pass
+        one_pass(2)
     return viols
 
 
@@ -242,7 +258,7 @@ def shard(ctx: Ctx):
             s, text, _ = draw(gen.documents(strict_features(), sizes))
             return s, text, draw(st.sampled_from(['default', 'default', 'props', 'renderers', 'all']))
 
-        hyp_run(ctx, 'routes', cases(), lambda c: evaluate(c, ctx, tmpdir), 60 if quick else 600)
+        hyp_run(ctx, 'routes', cases(), lambda c: evaluate(c, ctx, tmpdir), 40 if quick else 400)
         # rejected documents too: a route that tolerates what the others reject is a disagreement
         from . import c07
         from ..surface import render
@@ -253,6 +269,6 @@ def shard(ctx: Ctx):
             text = render(f[1], '\n', True) if f else text0
             return s_, text, 'props' if s_.allow_properties else 'default'
 
-        hyp_run(ctx, 'routes-malformed', bad_cases(), lambda c: evaluate(c, ctx, tmpdir), 25 if quick else 300)
+        hyp_run(ctx, 'routes-malformed', bad_cases(), lambda c: evaluate(c, ctx, tmpdir), 15 if quick else 200)
     finally:
         shutil.rmtree(tmpdir, ignore_errors=True)
